@@ -52,6 +52,7 @@ def spec_classes(fmt):
         c += [("ctc:" + op, inject.inj_ctc_op(op)) for op in LOG5]
         c += [("ctc:" + s, inject.inj_ctc_shape(s, LOG5)) for s in RT.SHAPES] + [("ctc:many", inject.inj_ctc_many(LOG5))]
         c += [("ctc:chain", chain("AND")), ("ctc:chain-or", chain("OR"))]
+        c += [("ctc:chain-very-long", chain("AND", True)), ("ctc:chain-or-very-long", chain("OR", True))]
         c += [(t, inject.inj_rename(t)) for t in ("name:space", "name:xml-special", "name:latin1", "name:cjk", "name:squote")]
         c += [("name:case-twin", inject.inj_case_twin)]
         return c
@@ -66,14 +67,17 @@ def spec_classes(fmt):
     if fmt == "glencoe":
         c = [x for x in RT.GLENCOE().classes() if x[0] not in ("rel:mutex", "rel:mutex+mandatory")]
         c += [("ctc:chain", chain("AND")), ("ctc:chain-or", chain("OR"))]
+        c += [("ctc:chain-very-long", chain("AND", True)), ("ctc:chain-or-very-long", chain("OR", True))]
         return c
     raise KeyError(fmt)
 
 
-def chain(op):
+def chain(op, very_long=False):
     def f(spec, r):
         names = S.feature_names(spec)
         k = r.choice([r.randint(3, 5), r.randint(6, 12), r.randint(13, 34)])
+        if very_long:
+            k = r.choice([65, 127, 128, 129, 150, 255, 256, 257, 300, 513])
         xs = [names[j % len(names)] for j in range(k)]
         r.shuffle(xs)
         t = xs[0]
@@ -108,22 +112,38 @@ PROJ = {"fide": RT.FIDE(), "fama": RT.Fmt(), "afm": RT.AFM(), "glencoe": RT.GLEN
 EMIT = {"fide": TP.fide, "fama": TP.fama, "afm": TP.afm, "glencoe": TP.glencoe}
 
 
-def judge_doc(acc, fmt, text, exp, knobs, tags, work, idx):
+def judge_doc(acc, fmt, text, exp, knobs, tags, work, idx, earlier=None):
+    """earlier: a document that the SAME reader object read from the same path before the file was replaced by
+    `text` (history: a reader object is kept and asked again after the file was re-exported)."""
     import contextlib
     import io
     from flamapy.metamodels.fm_metamodel import transformations as T
     R = getattr(T, READERS[fmt][0])
     path = os.path.join(work, f"d{idx}.{READERS[fmt][1]}")
+    reader = None
+    if earlier is not None:
+        with open(path, "w", encoding="utf-8") as fh:
+            fh.write(earlier)
+        reader = R(path)
+        try:
+            with contextlib.redirect_stderr(io.StringIO()):
+                reader.transform()
+        except Exception:  # noqa: BLE001 - the earlier document is judged on its own elsewhere
+            reader = None
     with open(path, "w", encoding="utf-8") as fh:
         fh.write(text)
     kn = sorted(knobs)
     cls = f"{fmt}|" + ("knob:" + kn[0] if len(kn) == 1 else f"knobs:{len(kn)}")
-    key = S.digest(text)
-    payload = {"fmt": fmt, "text": text, "expected": exp, "knobs": kn, "tags": tags}
+    if earlier is not None:
+        if reader is None:
+            return
+        cls = f"{fmt}|history:reader-object-kept-file-replaced"
+    key = S.digest([text, earlier])
+    payload = {"fmt": fmt, "text": text, "expected": exp, "knobs": kn, "tags": tags, "earlier": earlier}
     err = io.StringIO()
     try:
         with contextlib.redirect_stderr(err):
-            m = R(path).transform()
+            m = (reader or R(path)).transform()
     except Exception as e:  # noqa: BLE001
         if "description" in knobs and "<description>" in text:
             acc.held(cls + "|rejected-unrepresentable", key)
@@ -266,6 +286,27 @@ def run_shard(desc, acc):
                     continue
                 idx += 1
                 judge_doc(acc, fmt, text, exp, knobs, tags, work, idx)
+                if j % 4 == 0 and not any("very-long" in t for t in tags):
+                    # the same reader object reads the path again after the file was replaced by a re-export in
+                    # which one feature is renamed (ids, where the format has them, stay what they were)
+                    import copy
+                    nm = S.feature_names(spec)
+                    old_name = r.choice(nm)
+                    new_name = old_name + "Renamed"
+                    if new_name not in nm and (fmt != "afm" or new_name.isalnum()):
+                        st = r.getstate()
+                        spec2 = copy.deepcopy(spec)
+                        for f in S.features(spec2["root"]):
+                            if f["name"] == old_name:
+                                f["name"] = new_name
+                        spec2["ctcs"] = [{"name": c["name"], "ast": S.rename_ast(c["ast"], {old_name: new_name})} for c in spec2["ctcs"]]
+                        if fmt == "glencoe":
+                            text2, exp2 = TP.glencoe(spec2, r, knobs, keep_ids={new_name: old_name})
+                        else:
+                            text2, exp2 = EMIT[fmt](spec2, r, knobs)
+                        if text2 is not None:
+                            idx += 1
+                            judge_doc(acc, fmt, text2, exp2, knobs, tags, work, idx, earlier=text)
                 if len(acc.samples) < 4 and knobs and j % 7 == 0:
                     acc.sample({"fmt": fmt, "knobs": sorted(knobs), "tags": tags, "document": text[:700]})
         files = [(p, s) for p, s in corpus.fama_files() if (s or 0) <= desc["corpus_max"]]
@@ -282,6 +323,7 @@ def replay(payload, acc):
         if "path" in payload:
             judge_corpus(acc, payload["path"])
         else:
-            judge_doc(acc, payload["fmt"], payload["text"], payload["expected"], set(payload["knobs"]), payload["tags"], work, 0)
+            judge_doc(acc, payload["fmt"], payload["text"], payload["expected"], set(payload["knobs"]), payload["tags"], work, 0,
+                      earlier=payload.get("earlier"))
     finally:
         shutil.rmtree(work, ignore_errors=True)
